@@ -210,4 +210,25 @@ def templates(tier="quick"):
             T.append(scenario("restat_oo_gcc/depslog_lost", "template", [v], files=files, ops=ops2, init=[bi, len(ops2) - 1], depth=d,
                               tags=["restat", "order-only", "gcc", "lost-depslog"]))
 
+    # T24 a statement with discovered dependencies, a dyndep file that is re-produced in the build, and a restat
+    # producer among its inputs; its depfile / deps record is lost.  Loading the dyndep file mid-build re-scans the
+    # statement: the "dependency information is missing" state must survive that re-scan, whatever finishes first.
+    for kind, kw in (("depfile", {"depfile": True}), ("gcc", {"deps": "gcc"})):
+        dd = dyndep_text([("x.o", [], [], False)])
+        v = Variant("v0", [Stmt("dd", ex=["dd.in"], copy=True), Stmt("r", ex=["rsrc"], restat=True),
+                           Stmt("x.o", ex=["x.c", "r"], oo=["dd"], dyndep="dd", hidden=["hdr"], **kw), Stmt("exe", ex=["x.o"])])
+        files = {"dd.in": dd}
+        ops = standard_ops([v], files, js=(2,), touch=True, rm_depfiles=True, ks=(1,), edits_during=False, with_faults=False,
+                           touch_only=("dd.in",))
+        bi = next(i for i, o in enumerate(ops) if o["op"] == "ninja")
+        if kind == "depfile":
+            ri = next(i for i, o in enumerate(ops) if o["op"] == "rm" and o["path"] == "x.o.d")
+        else:
+            ops.append({"op": "rm", "path": ".ninja_deps", "label": "rm .ninja_deps"})
+            ri = len(ops) - 1
+        T.append(scenario("dyndep_restat_lost_%s/built" % kind, "template", [v], files=files, ops=ops, init=[bi], depth=d,
+                          tags=["dyndep", "restat", kind, "built"]))
+        T.append(scenario("dyndep_restat_lost_%s/lost" % kind, "template", [v], files=files, ops=ops, init=[bi, ri], depth=d,
+                          tags=["dyndep", "restat", kind, "lost-deps"]))
+
     return T
